@@ -28,6 +28,25 @@ def mutate(rnd, c):
     return c
 
 
+def rewire_same_size(rnd, c):
+    """Move the reader end of one gate-input line to another source (same object, same node and line counts, still
+    acyclic because the new source is an input/state-element signal)."""
+    from kyupy.circuit import Line
+    cand = [l for l in c.lines if l.reader.kind not in ('__fork__', 'output') and nets.seq_flag(l.reader.kind) == 0 and l.driver.kind == '__fork__']
+    srcs = [f for f in c.forks.values() if len(f.ins) > 0 and f.ins[0] is not None and (f.ins[0].driver.kind == 'input' or nets.seq_flag(f.ins[0].driver.kind))]
+    srcs += [f for f in c.io_nodes if f.kind == '__fork__' and len(f.ins) == 0]
+    if not cand or not srcs:
+        return None
+    l = rnd.choice(cand)
+    rdr, pin = l.reader, l.reader_pin
+    src = rnd.choice(srcs)
+    if src is l.driver:
+        return None
+    l.remove()
+    Line(c, src, (rdr, pin))
+    return c
+
+
 def traversal_record(rnd, c, nfan=3):
     st = project(c)
     st['seq'] = [nets.seq_flag(nd['kind']) for nd in st['nodes']]
@@ -117,17 +136,18 @@ def locs_records(rnd, n):
                 node = Node(c, nm, rnd.choice(['input', 'output']))
                 c.io_nodes.append(node)
             else:
-                node = Node(c, nm, 'DFF')
-            info.append((base, ix, nm, k < nio))
-        allb = sorted({b for b, _, _, _ in info})
+                node = Node(c, nm, 'LATCH' if (k % 3 == 1 and rnd.random() < 0.7) else 'DFF')
+            info.append((base, ix, nm, k < nio, node.kind))
+        allb = sorted({e[0] for e in info})
         for which in ('io', 's'):
             for prefix in rnd.sample(['a', 'ab', 'd', 'data', 'q', 'x', 'zz', 'A', 'do', ''], 4):
                 # positions: io_locs indexes io_nodes, s_locs indexes s_nodes = ports, then flip-flops in node order
                 if which == 'io':
                     seqn = [e for e in info if e[3]]
                 else:
-                    seqn = [e for e in info if e[3]] + [e for e in info if not e[3]]
-                rec = dict(names=[dict(m=b.startswith(prefix), b=allb.index(b), ix=list(ix)) for b, ix, nm, _ in seqn], raised=False,
+                    # s_nodes: ports, then ALL flip-flops, then ALL latches (each in node order)
+                    seqn = [e for e in info if e[3]] + [e for e in info if not e[3] and e[4] == 'DFF'] + [e for e in info if not e[3] and e[4] == 'LATCH']
+                rec = dict(names=[dict(m=e[0].startswith(prefix), b=allb.index(e[0]), ix=list(e[1])) for e in seqn], raised=False,
                            what='%s_locs(%r) over %s' % (which, prefix, [e[2] for e in seqn]))
                 try:
                     got = c.io_locs(prefix) if which == 'io' else c.s_locs(prefix)
@@ -174,6 +194,12 @@ def main(tier=None, replay=None):
             mutate(rnd, c)
         inputs.append(gen.circuit_state(c))
         recs.append(traversal_record(rnd, c))
+        if rnd.random() < 0.35:
+            # history: the SAME object traversed again after a rewiring that keeps the numbers of nodes and lines
+            c2 = rewire_same_size(rnd, c)
+            if c2 is not None:
+                inputs.append(gen.circuit_state(c2))
+                recs.append(traversal_record(rnd, c2))
     r = ck.tlc_batch('Traverse', 'Traverse', traces=recs, label='T:Traverse', per_shard=60, timeout=1700)
     ck.require_clean(r)
     ck.traces += len(recs)
